@@ -4,6 +4,92 @@
 From Ekit Require Import Common SliceModel SliceMemModel.
 
 (* ------------------------------------------------------------------ *)
+(* the remaining functions of /repo/slice and mapx.ToMap at header level *)
+(* slice/find.go Find *)
+Fixpoint find_loop (mt : Z -> bool) (st : store) (h : hdr) (i n : nat) : outcome (Z * bool) :=
+  match n with
+  | O => Ok (0, false)
+  | S n' => obind (load st h i) (fun v => if mt v then Ok (v, true) else find_loop mt st h (S i) n')
+  end.
+Definition find_m (mt : Z -> bool) (st : store) (s : mslice) : outcome (Z * bool) :=
+  find_loop mt st (hdr_of s) 0 (mlen s).
+
+(* for _, v := range dst { if !p(v) { return false } }; return true *)
+Fixpoint all_loop (p : Z -> bool) (st : store) (h : hdr) (i n : nat) : outcome bool :=
+  match n with
+  | O => Ok true
+  | S n' => obind (load st h i) (fun v => if p v then all_loop p st h (S i) n' else Ok false)
+  end.
+(* slice/contains.go ContainsAny / ContainsAll (srcMap := toMap(src)) *)
+Definition contains_any_m (st : store) (src dst : mslice) : outcome bool :=
+  obind (to_map_m st src) (fun sm => contains_loop (fun v => set_mem v sm) st (hdr_of dst) 0 (mlen dst)).
+Definition contains_all_m (st : store) (src dst : mslice) : outcome bool :=
+  obind (to_map_m st src) (fun sm => all_loop (fun v => set_mem v sm) st (hdr_of dst) 0 (mlen dst)).
+(* ContainsAnyFunc / ContainsAllFunc: nested loops *)
+Fixpoint any_func_loop (equal : Z -> Z -> bool) (st : store) (src : mslice) (dst : hdr) (i n : nat) : outcome bool :=
+  match n with
+  | O => Ok false
+  | S n' => obind (load st dst i) (fun vd =>
+            obind (contains_func_m st src (fun vs => equal vs vd)) (fun b =>
+            if b then Ok true else any_func_loop equal st src dst (S i) n'))
+  end.
+Definition contains_any_func_m (equal : Z -> Z -> bool) (st : store) (src dst : mslice) : outcome bool :=
+  any_func_loop equal st src (hdr_of dst) 0 (mlen dst).
+Fixpoint all_func_loop (equal : Z -> Z -> bool) (st : store) (src : mslice) (dst : hdr) (i n : nat) : outcome bool :=
+  match n with
+  | O => Ok true
+  | S n' => obind (load st dst i) (fun vd =>
+            obind (contains_func_m st src (fun s => equal s vd)) (fun b =>
+            if b then all_func_loop equal st src dst (S i) n' else Ok false))
+  end.
+Definition contains_all_func_m (equal : Z -> Z -> bool) (st : store) (src dst : mslice) : outcome bool :=
+  all_func_loop equal st src (hdr_of dst) 0 (mlen dst).
+
+(* slice/map.go ToMapV / ToMap: the result is a Go map, the slice is only read *)
+Definition to_map_v_m (fk fv : Z -> Z) (st : store) (s : mslice) : outcome gmap :=
+  range_fold (fun m e => map_put (fk e) (fv e) m) st (hdr_of s) 0 (mlen s) [].
+Definition to_map_kv_m (fk : Z -> Z) (st : store) (s : mslice) : outcome gmap := to_map_v_m fk (fun e => e) st s.
+
+(* mapx/map.go ToMap: nil / length checks, then m[keys[i]] = values[i] *)
+Fixpoint mapx_loop (st : store) (ks vs : hdr) (i n : nat) (m : gmap) : outcome gmap :=
+  match n with
+  | O => Ok m
+  | S n' => obind (load st ks i) (fun k => obind (load st vs i) (fun v => mapx_loop st ks vs (S i) n' (map_put k v m)))
+  end.
+Definition mapx_to_map_m (st : store) (keys values : mslice) : outcome gmap :=
+  match keys, values with
+  | Some _, Some _ =>
+      if negb (Nat.eqb (mlen keys) (mlen values)) then Err EOther
+      else mapx_loop st (hdr_of keys) (hdr_of values) 0 (mlen keys) []
+  | _, _ => Err EOther
+  end.
+
+Section Mem2.
+  Variable extra : nat -> nat.
+  (* ret = append(ret, xs...) — element by element *)
+  Definition append_slice (st : store) (ret : hdr) (xs : mslice) : outcome (store * hdr) :=
+    fm_loop extra (fun _ _ v => Ok (Some v)) st (hdr_of xs) 0 (mlen xs) ret.
+
+  (* slice/union.go UnionSetFunc: ret := make([]T, 0, len(src)+len(dst)); append dst..., src...; deduplicateFunc *)
+  Definition union_set_func_m (equal : Z -> Z -> bool) (st : store) (src dst : mslice) : outcome (store * mslice) :=
+    let mk := make st 0 (mlen src + mlen dst) in
+    obind (append_slice (fst mk) (snd mk) dst) (fun r1 =>
+    obind (append_slice (fst r1) (snd r1) src) (fun r2 =>
+    deduplicate_func_m extra equal (fst r2) (Some (snd r2)))).
+
+  (* slice/symmetric_diff.go SymmetricDiffSetFunc: res := []T{} (non-nil, cap 0) *)
+  Definition symdiff_set_func_m (equal : Z -> Z -> bool) (st : store) (src dst : mslice) : outcome (store * mslice) :=
+    let mk := make st 0 0 in
+    obind (fm_loop extra (fun st' _ v => obind (contains_func_m st' dst (fun t => equal t v))
+                                               (fun b => Ok (if negb b then Some v else None)))
+                   (fst mk) (hdr_of src) 0 (mlen src) (snd mk)) (fun r1 =>
+    obind (fm_loop extra (fun st' _ v => obind (contains_func_m st' src (fun t => equal t v))
+                                               (fun b => Ok (if negb b then Some v else None)))
+                   (fst r1) (hdr_of dst) 0 (mlen dst) (snd r1)) (fun r2 =>
+    deduplicate_func_m extra equal (fst r2) (Some (snd r2)))).
+End Mem2.
+
+(* ------------------------------------------------------------------ *)
 (* the calls of the correspondence check at memory level: every slice argument k gets its own
    backing array k = `off` sentinel cells, the elements, `spare` sentinel cells (cap = len + spare);
    a nil argument has the empty array.  Observables: the number of argument arrays, the result
@@ -39,6 +125,20 @@ Definition mem_run (off spare : nat) (c : call) : option mobs :=
   | CSymDiffSet a b => two a b (fun st x y => ok1 2 st (symdiff_set_m growth st x y))
   | CIntersectSetFunc e a b => two a b (fun st x y => ok1 2 st (intersect_set_func_m growth (eeval e) st x y))
   | CDiffSetFunc e a b => two a b (fun st x y => ok1 2 st (diff_set_func_m growth (eeval e) st x y))
+  | CUnionSetFunc e a b => two a b (fun st x y => ok1 2 st (union_set_func_m growth (eeval e) st x y))
+  | CSymDiffSetFunc e a b => two a b (fun st x y => ok1 2 st (symdiff_set_func_m growth (eeval e) st x y))
+  | CContainsAny a b => two a b (fun st x y => rd 2 st (contains_any_m st x y))
+  | CContainsAll a b => two a b (fun st x y => rd 2 st (contains_all_m st x y))
+  | CContainsAnyFunc e a b => two a b (fun st x y => rd 2 st (contains_any_func_m (eeval e) st x y))
+  | CContainsAllFunc e a b => two a b (fun st x y => rd 2 st (contains_all_func_m (eeval e) st x y))
+  | CMapxToMap a b => two a b (fun st x y => rd 2 st (mapx_to_map_m st x y))
+  | CContains a x0 => one spare a (fun st x => rd 1 st (contains_func_m st x (fun s => Z.eqb s x0)))
+  | CIndex a x0 => one spare a (fun st x => rd 1 st (index_func_m (fun s => Z.eqb s x0) st x))
+  | CLastIndex a x0 => one spare a (fun st x => rd 1 st (last_index_func_m (fun s => Z.eqb s x0) st x))
+  | CIndexAll a x0 => one spare a (fun st x => ok1 1 st (index_all_func_m growth (fun s => Z.eqb s x0) st x))
+  | CFind a p => one spare a (fun st x => rd 1 st (find_m (pmatch p) st x))
+  | CToMap a fk => one spare a (fun st x => rd 1 st (to_map_kv_m (mkey fk) st x))
+  | CToMapV a fk fv => one spare a (fun st x => rd 1 st (to_map_v_m (mkey fk) (mkey fv) st x))
   | CContainsFunc a p => one spare a (fun st x => rd 1 st (contains_func_m st x (pmatch p)))
   | CIndexFunc a p => one spare a (fun st x => rd 1 st (index_func_m (pmatch p) st x))
   | CLastIndexFunc a p => one spare a (fun st x => rd 1 st (last_index_func_m (pmatch p) st x))
